@@ -29,6 +29,10 @@ func (p *PoolAllocator[T]) Get() *Buffer[T] {
 
 func (p *PoolAllocator[T]) Put(b *Buffer[T]) {
 	mustSame(p.alloc.Capacity*p.alloc.Channels, b.Cap(), diffCapacity)
+	// zero the whole capacity, not just the current length.
+	b.data = b.data[:cap(b.data)]
 	b.clear()
+	// restore the length of a newly allocated Buffer.
+	b.data = b.data[:p.alloc.Length*p.alloc.Channels]
 	p.pool.Put(b)
 }
